@@ -78,9 +78,14 @@ async def closing(w, last_view):
         w.inconclusive = True
         return []
     w.closing_rounds = rnd
+    # jobs whose completion the harness itself withholds (known finding: a parent with a child in a still uncommitted later update
+    # must not complete in guarded runs) are not judged, nor are their batches
+    frozen = set(w._frozen_parents()) if 'uncommitted-child-made-ready-by-parent-completion' in w.guards else set()
+    if frozen:
+        w.closing_blocked_by_guard = True
     for k, j in v.jobs.items():
-        if not v.committed(k[0], j['update_id']):
-            continue
+        if not v.committed(k[0], j['update_id']) or any(fb == k[0] for fb, _ in frozen):
+            continue          # (descendants of a withheld job cannot finish either: the whole batch is left unjudged)
         if j['state'] not in O.TERMINAL:
             return [('job-never-terminates', 'every job of a committed batch whose attempts finish reaches a terminal state',
                      f'fixpoint after {rnd} fair rounds with job {k} in state {j["state"]} (cancelled={j["cancelled"]}, always_run={j["always_run"]}, '
@@ -88,6 +93,8 @@ async def closing(w, last_view):
         if j['always_run'] and j['state'] == 'Cancelled':
             return [('always-run-cancelled', 'always-run jobs of a cancelled batch still run to completion', f'job {k} always_run ended Cancelled')]
     for (b, g), grp in v.groups.items():
+        if any(fb == b for fb, _ in frozen):
+            continue
         if g == 0 and any(u['committed'] and u['batch_id'] == b for u in v.S['batch_updates']) and grp['state'] != 'complete':
             js = [j for (bb, _), j in v.jobs.items() if bb == b and v.committed(b, j['update_id'])]
             if js:
@@ -97,6 +104,8 @@ async def closing(w, last_view):
 
 def extra(w):
     out = set()
+    if getattr(w, 'closing_blocked_by_guard', False):
+        out.add('closing_not_judged_for_frozen_parent')
     if getattr(w, 'fault_while_running', False):
         out.add('fault_while_running')
     if getattr(w, 'inconclusive', False):
